@@ -32,10 +32,31 @@ pub struct WireCase {
     pub has_custom: bool,
 }
 
+/// Complete RLP items (records, valid or not) followed by arbitrary bytes.
+#[derive(Clone, Debug, PartialEq, Eq, Hash, Serialize, Deserialize)]
+pub struct StreamCase {
+    #[serde(with = "crate::hexser::vecvec")]
+    pub items: Vec<Vec<u8>>,
+    #[serde(with = "crate::hexser")]
+    pub suffix: Vec<u8>,
+    /// wrap the items in an RLP list and decode it as `Vec<Enr<K>>`
+    pub as_list: bool,
+    pub label: String,
+}
+
+/// A string handed to `from_str` and (JSON-quoted) to the deserialiser.
+#[derive(Clone, Debug, PartialEq, Eq, Hash, Serialize, Deserialize)]
+pub struct TextCase {
+    pub s: String,
+    pub label: String,
+}
+
 #[derive(Clone, Debug, PartialEq, Eq, Hash, Serialize, Deserialize)]
 pub enum Case {
     Hist(History),
     Wire(WireCase),
+    Stream(StreamCase),
+    Text(TextCase),
     NodeId(NodeIdCase),
     KeyImport(KeyImportCase),
 }
